@@ -176,9 +176,14 @@ def oracle(fmt, mn, mx, st, val, impl):
                           f"{want if want.denominator == 1 else float_of(want)}, got {impl}")
     else:
         tol = sp["tol"] + abs(got) * Fraction(1, 2 ** 52)
-        if not any(abs(got - c) <= tol for c in sp["candidates"]):
+        if sp["kind"] == "grid":
+            k = min(max(stepgrid.rhu((got - sp["off"]) / sp["step"]), sp["klo"]), sp["khi"])
+            cands = [sp["off"] + k * sp["step"]]
+        else:
+            cands = sp["candidates"]
+        if not any(abs(got - c) <= tol for c in cands):
             return ("frac:beyond-six-digits", f"{fmt} min={mn!r} max={mx!r} step={st!r} value={val!r}: {impl} is not within six "
-                                              f"significant digits of a nearest grid point {[float_of(c) for c in sp['candidates']][:3]}")
+                                              f"significant digits of a nearest grid point (nearest admissible: {float_of(cands[0])!r})")
         if "hi" in sp and not (sp["lo"] - tol <= got <= sp["hi"] + tol):
             return ("frac:outside-range", f"{impl} outside [{mn!r}, {mx!r}] although both bounds are on the grid")
     return None
@@ -378,7 +383,7 @@ def py_op(name, prec, mode, a, b):
             if name == "div":
                 return "dec " + dtok(a / b)
             if name == "fix":
-                return "dec " + dtok(+a)
+                return "dec " + dtok(ctx.create_decimal(a))
             if name == "toint":
                 return "dec " + dtok(a.to_integral_value())
             if name == "cmp":
